@@ -127,6 +127,9 @@ func runSol(o *Out, rng *rand.Rand, thorough bool) {
 		runs, nstart := c.Solve.Runs, c.Solve.Starts
 		opt := nextroute.ParallelSolveOptions{Iterations: c.Solve.Iters, Duration: 20 * time.Second, ParallelRuns: runs,
 			StartSolutions: nstart, RunDeterministically: c.Solve.Det}
+		if c.Solve.Iters == 0 {
+			opt.Duration = 300 * time.Millisecond // nobody iterates: the channel closes at the deadline
+		}
 		rec := &hookRec{}
 		nextroute.VerifHook = func(site string, args ...any) {
 			if site == "agg_score" {
